@@ -308,6 +308,7 @@ func (engine *Engine) Shutdown(ctx context.Context) (err error) {
 	if atomic.LoadUint32(&engine.status) != statusRunning {
 		return errStatusNotRunning
 	}
+	verifYield("shutdown.loaded")
 	if !atomic.CompareAndSwapUint32(&engine.status, statusRunning, statusShutdown) {
 		return
 	}
